@@ -34,14 +34,15 @@ pub fn run(rng: &mut Rng, out: &mut Fails) {
     if catch(|| boxcox_shifted(-1., 0., -2.)).is_some() { fail(out, "boxcox_shifted", "C17.boxcox_shifted.valid", "x=-1 shift=-2".into(), "returned".into(), "panic".into()); }
     if catch(|| boxcox_shifted(-0.5, 1., 1.)).is_none() { fail(out, "boxcox_shifted", "C17.boxcox_shifted.valid", "x=-0.5 lambda=1 shift=1".into(), "panic".into(), "-0.5".into()); }
     for n in 1..30usize {
-        let x = rng.vec(n, -30., 30.);
+        let scale = [30., 700., 1e4][n % 3];
+        let x = rng.vec(n, -scale, scale);
         let s = softmax(&x);
         let tot: f64 = s.iter().sum();
         if s.iter().any(|v| !(*v >= 0.)) || !close(tot, 1., 1e-12) { fail(out, "softmax", "C17.softmax.sum1", format!("{:?}", x), format!("sum {}", tot), "non-negative, sum 1".into()); }
         for i in 0..n { for j in 0..n { if x[i] < x[j] && s[i] > s[j] { fail(out, "softmax", "C17.softmax.order", format!("{:?}", x), "order broken".into(), "order preserved".into()); } } }
         let sh: Vec<f64> = x.iter().map(|v| v + 3.5).collect();
         let s2 = softmax(&sh);
-        if s.iter().zip(&s2).any(|(a, b)| !close(*a, *b, 1e-10)) { fail(out, "softmax", "C17.softmax.shift", format!("{:?}", x), "changed".into(), "shift-invariant".into()); }
+        if s.iter().zip(&s2).any(|(a, b)| !close(*a, *b, if scale > 100. { 1e-8 } else { 1e-10 })) { fail(out, "softmax", "C17.softmax.shift", format!("{:?}", x), "changed".into(), "shift-invariant".into()); }
     }
     for n in 0..=67u64 { for k in 0..=n {
         let w = binom_u128(n, k);
